@@ -271,6 +271,26 @@ class C18(Prop):
             case['prelude'] = lang.gen_trace(rng, names, rng.randint(1, 12))    # an earlier run, then reset()
         return case
 
+    def extra(self, ctx):
+        """Enumerated in every run: the window laws with wide law windows (just above every power of two from 16 on)
+        on traces longer than the window over a tiny alphabet, offline and online."""
+        rng = ctx.rng
+        N, V, C = lang.N, lang.V, lang.C
+        combos = [(kind, law, w) for w in (17, 33, 65, 129) for kind, laws in (
+            ('dt_offline', ('dual-once-hist', 'dual-ev-alw', 'once-once', 'ev-ev')), ('dt_online', ('dual-once-hist', 'once-once')))
+            for law in laws]
+        combos = [c for i, c in enumerate(combos) if i % ctx.nshards == ctx.shard]
+        for kind, law, w in combos:
+            if ctx.out_of_time():
+                break
+            a = rng.choice([0, 1, 5])
+            p = rng.choice([V('x'), N('geq', V('x'), C(1.0)), N('leq', V('x'), C(1.0))])
+            n = a + w + rng.randint(15, 40)
+            self.check(ctx, {'law': law, 'kind': kind, 'p': lang.to_jsonable(p), 'q': lang.to_jsonable(p),
+                             'i1': [a, a + w], 'i2': [0, rng.randint(1, 6)], 'wide_law': True,
+                             'data': {'x': lang.gen_values(rng, n, 'tiny')}})
+            ctx.count('enumerated-wide-law-windows')
+
     def brief(self, case):
         c = dict(case)
         if case['kind'] in ('ct_offline', 'ct_online'):
